@@ -32,7 +32,7 @@ from typing import Any, Generic, overload, Self, TYPE_CHECKING, TypeVar
 import numpy as np
 import sympy
 
-from cirq import protocols
+from cirq import _compat, protocols
 
 if TYPE_CHECKING:
     import cirq
@@ -310,9 +310,8 @@ class LinearDict(Generic[TVector], MutableMapping[TVector, 'cirq.TParamValComple
         return _format_terms(terms=terms, format_spec=format_spec)
 
     def __repr__(self) -> str:
-        coefficients = dict(self)
         class_name = self.__class__.__name__
-        return f'cirq.{class_name}({coefficients!r})'
+        return f'cirq.{class_name}({_compat.proper_repr(dict(self))})'
 
     def __str__(self) -> str:
         return self.__format__('.3f')
